@@ -14,6 +14,7 @@ for q in targets:
     r = verify_lemma(w, q[6:]) if q.startswith('lemma:') else verify_function(w, q)
     j = r.to_json()
     print('%-45s %-12s paths=%d normal=%d obl=%d ok=%d  %.2fs  %s' % (q, j['status'], j['paths'], j['normal_paths'], j['obligations'], j['discharged'], j['secs'], j['message'][:2500]))
+    if j['normal_paths'] == 0: print('   RAISES', j['raise_paths'])
     for f in j['failed'][:3]:
         print("   FAILED", f["label"], f["path"], json.dumps(f["model"])[:600], "CLAIM", (f.get("claim") or '')[:300])
     for f in j['unknown'][:3]:
